@@ -5,7 +5,11 @@ Local Open Scope Z_scope.
 
 (* one status entry as served by GET /api/v1/shard/targets/status/ *)
 Record sobs := { sb_hash : N; sb_state : tstate; sb_health : health; sb_series : Z; sb_total : Z; sb_times : N; sb_err : bool }.
-Record sc_obs := { so_status : list sobs (* sorted by hash *); so_head : Z; so_proc : Z; so_idle : option Z; so_ok : bool (* the op's API call succeeded *) }.
+(* one job as served by GET /api/v1/shard/samples/?with_metrics_detail=true: the samples kept after metric relabeling, and per
+   metric (the harness' payloads have two: `keepme`, `dropme`) the (kept, all) counts *)
+Record samp := { sm_job : N; sm_scraped : Z; sm_keep : Z * Z; sm_drop : Z * Z }.
+Record sc_obs := { so_status : list sobs (* sorted by hash *); so_head : Z; so_proc : Z; so_idle : option Z; so_ok : bool (* the op's API call succeeded *);
+                   so_samples : list samp (* sorted by job *); so_samples_stable : bool (* a second GET answered the same *) }.
 Record sc_case := { sk_prom : Z; sk_now0 : Z; sk_ops : list sc_op; sk_seen : list sc_obs (* after start-up, then after each op *) }.
 
 Fixpoint insert_sobs (t : sobs) (l : list sobs) : list sobs :=
@@ -17,8 +21,25 @@ Definition obs_status (st : amap sstat) : list sobs :=
   fold_right insert_sobs [] (map (fun kv => {| sb_hash := fst kv; sb_state := ss_state (snd kv); sb_health := ss_health (snd kv);
                                                sb_series := ss_series (snd kv); sb_total := ss_total (snd kv);
                                                sb_times := ss_times (snd kv); sb_err := ss_err (snd kv) |}) st).
+(* service.go samples: per job of the assignment, sums over its targets' last-scrape statistics *)
+Definition samples_of_job (st : amap sstat) (j : N) (ts : list tgt) : samp :=
+  let lasts := flat_map (fun t => match afind (t_hash t) st with
+                                  | Some e => match ss_last e with Some kt => [kt] | None => [] end
+                                  | None => []
+                                  end) ts in
+  let kept := fold_left (fun a kt => a + fst kt) lasts 0 in
+  let dropped := fold_left (fun a kt => a + (snd kt - fst kt)) lasts 0 in
+  {| sm_job := j; sm_scraped := kept; sm_keep := (kept, kept); sm_drop := (0, dropped) |}.
+Fixpoint insert_samp (t : samp) (l : list samp) : list samp :=
+  match l with
+  | [] => [t]
+  | x :: r => if (sm_job t <=? sm_job x)%N then t :: l else x :: insert_samp t r
+  end.
+Definition model_samples (s : sidecar) : list samp :=
+  fold_right insert_samp [] (map (fun jt => samples_of_job (sc_status s) (fst jt) (snd jt)) (sc_targets s)).
 Definition obs_of_sidecar (prom : Z) (s : sidecar) (ok : bool) : sc_obs :=
-  {| so_status := obs_status (sc_status s); so_head := rt_head prom s; so_proc := rt_proc s; so_idle := sc_idle s; so_ok := ok |}.
+  {| so_status := obs_status (sc_status s); so_head := rt_head prom s; so_proc := rt_proc s; so_idle := sc_idle s; so_ok := ok;
+     so_samples := model_samples s; so_samples_stable := true |}.
 
 Definition sobs_eqb (a b : sobs) : bool :=
   N.eqb (sb_hash a) (sb_hash b) && tstate_eqb (sb_state a) (sb_state b) && health_eqb (sb_health a) (sb_health b) &&
@@ -26,7 +47,12 @@ Definition sobs_eqb (a b : sobs) : bool :=
   Bool.eqb (sb_err a) (sb_err b).
 Definition sc_obs_eqb (a b : sc_obs) : bool :=
   list_eqb sobs_eqb (so_status a) (so_status b) && Z.eqb (so_head a) (so_head b) && Z.eqb (so_proc a) (so_proc b) &&
-  option_eqb Z.eqb (so_idle a) (so_idle b) && Bool.eqb (so_ok a) (so_ok b).
+  option_eqb Z.eqb (so_idle a) (so_idle b) && Bool.eqb (so_ok a) (so_ok b) &&
+  list_eqb (fun x y => N.eqb (sm_job x) (sm_job y) && Z.eqb (sm_scraped x) (sm_scraped y) &&
+                       Z.eqb (fst (sm_keep x)) (fst (sm_keep y)) && Z.eqb (snd (sm_keep x)) (snd (sm_keep y)) &&
+                       Z.eqb (fst (sm_drop x)) (fst (sm_drop y)) && Z.eqb (snd (sm_drop x)) (snd (sm_drop y)))
+           (so_samples a) (so_samples b) &&
+  Bool.eqb (so_samples_stable a) (so_samples_stable b).
 
 Definition op_ok (s : sidecar) (op : sc_op) : bool :=
   match op with OpUpdate req now ok => ok | _ => true end.
@@ -201,7 +227,10 @@ Fixpoint spec_windows (win : amap (list Z)) (acked : assignment) (ops : list sc_
 Definition c14_case (c : sc_case) : bool :=
   match sk_seen c with
   | first :: rest => negb (forallb (fun op => match op with OpUpdate req _ _ => hashes_unique req | _ => true end) (sk_ops c)) ||
-                     spec_windows [] [] (sk_ops c) rest (sk_prom c)
+                     (spec_windows [] [] (sk_ops c) rest (sk_prom c) &&
+                      (* the per-metric counts add up to the totals, and reading them does not change them *)
+                      forallb (fun o => so_samples_stable o &&
+                                        forallb (fun m => Z.eqb (sm_scraped m) (fst (sm_keep m) + fst (sm_drop m))) (so_samples o)) (sk_seen c))
   | [] => false
   end.
 
